@@ -537,5 +537,9 @@ def check(ctx):
                              if o['rule'] == 'C02.TRUE-GUARD']
     # ... and only if every rule text goes through tokenizer + table at all
     # (no fast path that hands a text to the single-check parser directly)
+    # ... a quoted word (the empty one included) is a string token, which
+    # no reduction accepts: it never becomes an operand (= C05.QUOTED)
+    from . import c05 as _c05
+    ctx.borrow('C02.TOKENS', _c05.check_quoted, only=['C05.QUOTED'])
     ctx.borrow('C02.TOKENS', c01.check_text_driver, pstate,
                only=['C01.TEXT-DRIVER'])
